@@ -27,7 +27,7 @@ from urllib3.util.retry import Retry
 ALPHABET = "a\r\n\x00é€0"
 RALPHA = "a\r\n0"
 KINDS = ["none", "bytes", "str", "bytearray", "memoryview", "BytesIO", "StringIO", "file_no_tell", "file_bad_tell", "list",
-         "generator", "empty_list", "array_H", "raw_short_reads", "list_of_str", "tuple"]
+         "generator", "empty_list", "array_H", "raw_short_reads", "list_of_str", "tuple", "iter_list", "chain", "iterator_obj"]
 METHODS = ["GET", "HEAD", "DELETE", "OPTIONS", "CONNECT", "TRACE", "POST", "PUT", "PATCH", "post", "get"]
 NOT_EXPECTING = {"GET", "HEAD", "DELETE", "TRACE", "OPTIONS", "CONNECT"}
 
@@ -101,7 +101,7 @@ def make_body(kind, text, i, j, offset):
         return NoTell(data), data
     if k == "file_bad_tell":
         return BadTell(data), data
-    if k in ("list", "tuple", "generator", "list_of_str"):
+    if k in ("list", "tuple", "generator", "list_of_str", "iter_list", "chain", "iterator_obj"):
         i = min(i, len(text))
         j = min(max(i, j), len(text))
         parts = [text[:i], text[i:j], text[j:]]
@@ -112,6 +112,13 @@ def make_body(kind, text, i, j, offset):
             return list(bparts), data
         if k == "tuple":
             return tuple(bparts), data
+        if k == "iter_list":
+            return iter(bparts), data                 # one-shot iterators that are not generator objects
+        if k == "chain":
+            import itertools
+            return itertools.chain(bparts[:1], bparts[1:]), data
+        if k == "iterator_obj":
+            return OneShot(bparts), data
         return (p for p in bparts), data
     if k == "empty_list":
         return [], b""
@@ -122,6 +129,21 @@ def make_body(kind, text, i, j, offset):
     if k == "raw_short_reads":
         return ShortReads(data), data
     raise KeyError(k)
+
+
+class OneShot:
+    """Hand-written iterator: __iter__ returns itself, so a second pass yields nothing."""
+
+    def __init__(self, parts):
+        self.parts = list(parts)
+
+    def __iter__(self):
+        return self
+
+    def __next__(self):
+        if not self.parts:
+            raise StopIteration
+        return self.parts.pop(0)
 
 
 class Collect(N.BaseHandler):
@@ -214,7 +236,7 @@ def frame_dims(part):
     for kind in part["kinds"]:
         texts = strings_upto(part["alpha"], part["maxlen"]) if kind != 0 else [""]
         for text in texts:
-            cuts = [(i, j) for i in range(len(text) + 1) for j in range(i, len(text) + 1)] if kind in (9, 10, 14, 15) else [(0, 0)]
+            cuts = [(i, j) for i in range(len(text) + 1) for j in range(i, len(text) + 1)] if kind in (9, 10, 14, 15, 16, 17, 18) else [(0, 0)]
             offs = range(len(text) + 1) if kind in (5, 6) else [0]
             blocks = range(1, part["maxblock"] + 1) if kind in (5, 6, 7, 8, 13) else [1]
             for (i, j) in cuts:
@@ -377,7 +399,7 @@ def JOBS(tier):
     jobs = []
     for kind in range(len(KINDS)):
         jobs.append({"func": "c11_frame", "timeout": t, "path_timeout": 60, "samples": 1,
-                     "part": {"kinds": [kind], "maxlen": 2 if (quick or kind in (9, 10, 14, 15)) else 3, "maxblock": 3 if quick else 4,
+                     "part": {"kinds": [kind], "maxlen": 2 if (quick or kind in (9, 10, 14, 15, 16, 17, 18)) else 3, "maxblock": 3 if quick else 4,
                               "alpha": "a\n\u20ac" if quick else "a\r\n\x00\u20ac",
                               "methods": list(range(len(METHODS))) if (kind == 0 or not quick) else [0, 6, 9],
                               "hdrs": "few" if quick else True}})
@@ -389,7 +411,7 @@ def JOBS(tier):
 
 
 EVIDENCE = {
-    "bounds": {"quick": "16 body kinds (None, bytes, str, bytearray, memoryview, BytesIO, StringIO, read-only file, file whose tell fails, "
+    "bounds": {"quick": "19 body kinds (None, bytes, str, bytearray, memoryview, BytesIO, StringIO, read-only file, file whose tell fails, "
                         "list/tuple/generator of chunks, list of str chunks, empty list, array('H'), raw short-reading stream) x content of "
                         "<= 2 characters over {a, LF, euro} x chunk cut points x start offset x blocksize 1..3 x {GET, POST, post} "
                         "(all 11 methods for body-less) x chunked flag x caller framing header in 3 casings; re-sending: 10 histories x 16 "
